@@ -34,8 +34,17 @@ struct Args {
     stdio: bool,
 }
 
-#[tokio::main]
-async fn main() -> Result<()> {
+fn main() -> Result<()> {
+    // The parser and the features are recursive descents over the document,
+    // so the tasks need stack space proportional to its nesting depth.
+    let runtime = tokio::runtime::Builder::new_multi_thread()
+        .enable_all()
+        .thread_stack_size(64 * 1024 * 1024)
+        .build()?;
+    runtime.block_on(async { tokio::spawn(run()).await? })
+}
+
+async fn run() -> Result<()> {
     color_eyre::install()?;
     let args = Args::parse();
     if let Some(log_file) = &args.log {
